@@ -3,7 +3,7 @@ import numpy as np
 
 from vp.registry import contract
 from . import builders as B
-from .state import state_of, compare_states
+from .state import state_of, compare_states, independent
 
 TRUSTED = []
 ASSUMPTIONS = [
@@ -114,6 +114,7 @@ def crop(ctx, cls, shape, constrain, region):
     q = ctx.reals('q', (1, d))
     ctx.check_eq('returned-transform: result coords -> source coords', tr.apply(q), np.asarray(q) + np.array(lo_b))
     compare_states(ctx, 'receiver-unchanged', state_of(img), before)
+    independent(ctx, 'crop-shares-no-mutable-storage-with-the-source-image', res, img)
     res2 = img.crop(np.array(lo_r, dtype=object if ctx.sym else float), np.array(hi_r, dtype=object if ctx.sym else float),
                     constrain_to_boundary=constrain)
     compare_states(ctx, 'return_transform-flag-irrelevant', state_of(res2), state_of(res))
